@@ -85,7 +85,7 @@ BACKREF_COLLS = {
     "S": ["dovetails_L", "dovetails_R", "edges_to_contained", "edges_to_containers", "internals",
           "gaps_L", "gaps_R", "fragments", "paths", "sets"],
     "L": ["paths"], "C": [], "E": ["paths", "sets"], "G": ["sets"], "F": [],
-    "P": [], "O": ["paths", "sets"], "U": ["sets"],
+    "P": [], "O": ["paths", "sets"], "U": ["sets"], "\n": ["paths", "sets"],
 }
 
 def obs(g):
@@ -116,3 +116,27 @@ def obs(g):
 
 def obs_str(g):
     return json.dumps(obs(g), sort_keys=True)
+
+
+A_, B_, C_ = "\x1e", "\x1d", "\x1c"
+
+
+def obs_flat(g):
+    """Canonical observation in the flat layout the Lean model prints (GfaModel/GraphObs.lean `obs`).
+    Only graph records (S L C P E G F O U and virtual unknowns) are included."""
+    lines = [l for l in g.lines if l.record_type in BACKREF_COLLS or l.record_type in ("C", "F", "P")]
+    text = sorted(wl(l) for l in lines)
+    names = sorted(str(n) for n in g.names)
+    virt = sorted(wl(l) for l in lines if l.virtual)
+    back = []
+    for l in lines:
+        colls = BACKREF_COLLS.get(l.record_type, [])
+        if not colls:
+            continue
+        ents = []
+        for c in colls:
+            ents.append(c + "=" + A_.join(sorted(wl(x) for x in getattr(l, c))))
+        back.append(wl(l) + C_ + C_.join(ents))
+    back.sort()
+    return B_.join(["ver=" + str(g.version), "text=" + A_.join(text), "names=" + A_.join(names),
+                    "virt=" + A_.join(virt), "back=" + (B_ + B_).join(back)])
